@@ -364,8 +364,31 @@ def r56(e: Engine, rep: Report):
                 max_depth=3)
     where = ctx.func.qname
     rep.functions.add(where)
+    def per_line(n):
+        it = n.ast.iter
+        if 'fullline_pattern' in ast.unparse(it):
+            return True
+        # the finished lines of `parts = piece.split(b'\n')` after the
+        # unfinished rest was popped off
+        if isinstance(it, ast.Name):
+            fn = n.frame.ctx.func.node
+            ds = [a.value for a in walk_own(fn) if isinstance(a, ast.Assign)
+                  and any(isinstance(t, ast.Name) and t.id == it.id
+                          for t in a.targets)]
+            pops = [x for x in walk_own(fn) if isinstance(x, ast.Call) and
+                    isinstance(x.func, ast.Attribute) and
+                    x.func.attr == 'pop' and not x.args and
+                    isinstance(x.func.value, ast.Name) and
+                    x.func.value.id == it.id]
+            return len(ds) == 1 and len(pops) == 1 and \
+                isinstance(ds[0], ast.Call) and \
+                isinstance(ds[0].func, ast.Attribute) and \
+                ds[0].func.attr == 'split' and len(ds[0].args) == 1 and \
+                isinstance(ds[0].args[0], ast.Constant) and \
+                ds[0].args[0].value == b'\n'
+        return False
     loops = [n for n in g.of_kind('iter') if isinstance(n.ast, ast.For) and
-             'fullline_pattern' in ast.unparse(n.ast.iter)]
+             per_line(n)]
     rep.evaluations += 1
     if not loops:
         rep.error('anchor vanished: loop over fullline_pattern matches in '
